@@ -242,7 +242,10 @@ def run_edit_case(rec, spec, variant, edit_seed, n_edits, oracles, scr_k=1):
     rng = random.Random(edit_seed ^ 0x5EED)
     try:
         b = lib.build(spec, variant)
-        lib.enc(b); int(b.nBytes)
+        x0 = lib.enc(b); int(b.nBytes)
+        if erng.random() < 0.4:    # edit an object that came out of the decoder instead of one built by hand
+            b, _ = lib.dec(spec["t"], spec["format"], x0)
+            rec.count("edit:on-decoded-object")
         try:
             bool(b == b)
         except Exception:
